@@ -414,6 +414,17 @@ pub fn c11(ctx: &Ctx, rep: &mut Report) {
                     }
                     rep.count("size_sweep_records");
                     (h, s2 / 2)
+                } else if !ctx.miri && rng.chance(1, 400) {
+                    // a long read among short ones (any position of the batch): beyond any internal
+                    // chunk or scratch-buffer size a writer may use
+                    rep.count("long_reads_written");
+                    let n = match rng.below(4) {
+                        0 => 1usize << rng.range(12, 17),
+                        1 => (1usize << rng.range(12, 17)) + rng.range(0, 2) - 1,
+                        2 => rng.range(4_000, 40_000),
+                        _ => rng.range(16_380, 16_390),
+                    };
+                    (gen_head_domain(&mut rng, 24), n)
                 } else {
                     (gen_head_domain(&mut rng, 24), rng.skewed(30))
                 };
